@@ -67,6 +67,7 @@ func main() {
 		"src/app": modeFull, "src/pclog": modeFull, "src/health": modeFull, "src/api": modeFull, "src/client": modeFull,
 		"src/types": modeMapOnly, "src/loader": modeMapOnly, "src/templater": modeMapOnly, "src/admitter": modeMapOnly,
 		"src/command": modeCommand,
+		"src/cmd":     modeFull, // only project_runner.go (the binary's signal handling), see process()
 	}
 	var pats []string
 	for p := range repoPkgs {
@@ -126,6 +127,9 @@ func process(dir string, pats []string, modeOf func(string) mode) {
 			name := p.CompiledGoFiles[i]
 			if strings.HasSuffix(name, "_test.go") {
 				continue
+			}
+			if strings.HasSuffix(p.PkgPath, "/src/cmd") && filepath.Base(name) != "project_runner.go" {
+				continue // the rest of the command-line front end is not run in simulation
 			}
 			rw := &rewriter{pkg: p, file: f, fname: name, rel: rel(dir, name), mode: m}
 			rw.run()
@@ -228,6 +232,7 @@ func (r *rewriter) run() {
 	case modeFull:
 		r.swapImport("os/exec", "verifrt/simos", "exec")
 		r.swapImport("sync", rtSync, "sync")
+		r.swapImport("os/signal", "verifrt/simsignal", "signal")
 		if strings.HasSuffix(r.pkg.PkgPath, "/src/pclog") {
 			r.swapImport("crypto/rand", "verifrt/simrand", "rand")
 		}
